@@ -136,6 +136,14 @@ loop:
 		return "", "", inherited, errors.New("zero length string")
 	}
 
+	if offset == 0 {
+		// reached end of input without a delimiter: a bare variable name on
+		// the last line (no trailing line break) is inherited like any other
+		key = src
+		offset = len(src)
+		inherited = true
+	}
+
 	if inherited && strings.IndexByte(key, ' ') == -1 {
 		p.line++
 	}
